@@ -21,6 +21,15 @@ class TeeX:
         self.lock = threading.Lock()
 
 
+class _SourceError:
+    # Takes the place of a data element at the position where `instream` raised.
+    # Every fork re-raises the exception when it gets there.
+    __slots__ = ('exc',)
+
+    def __init__(self, exc):
+        self.exc = exc
+
+
 class Fork:
     def __init__(
         self,
@@ -43,6 +52,17 @@ class Fork:
     def __iter__(self):
         return self
 
+    def _pull(self):
+        # Get the next element out of `instream`; `instream_lock` is held.
+        # If `instream` fails, the exception takes the place of an element
+        # so that every fork gets to see it, after all the preceding elements.
+        try:
+            return next(self.instream)
+        except StopIteration:
+            raise
+        except Exception as e:
+            return _SourceError(e)
+
     def __next__(self):
         if self.next is None:
             if self.head.value is None:
@@ -60,7 +80,7 @@ class Fork:
                             # is empty, the exception will be propagated, halting
                             # this fork. All the other forks will also get to this
                             # point and exit the same way.
-                            x = next(self.instream)
+                            x = self._pull()
                             box = TeeX(x)
                             self.buffer.put(box)
                             self.head.value = box
@@ -77,7 +97,9 @@ class Fork:
             else:
                 raise StopIteration
         else:
-            while self.next.next is None:
+            while self.next.next is None and not isinstance(
+                self.next.value, _SourceError
+            ):
                 # During this loop while waiting on the `instream_lock`,
                 # `self.next.next` may become not None thanks to another Fork's
                 # actions.
@@ -89,7 +111,7 @@ class Fork:
                     try:
                         if self.next.next is None:
                             try:
-                                x = next(self.instream)
+                                x = self._pull()
                             except StopIteration:
                                 # `instream` is exhausted.
                                 # `self.next.next` remains `None`.
@@ -118,6 +140,8 @@ class Fork:
 
             self.next = box.next
             self._state = 1
+            if isinstance(box.value, _SourceError):
+                raise box.value.exc
             return box.value
 
 
